@@ -697,7 +697,10 @@ impl Inner {
             }
         };
 
-        if stream.is_pending_open {
+        // A pending-open stream of a server is a pushed stream whose
+        // PUSH_PROMISE was already written: for the peer it is reserved, not
+        // idle, and RST_STREAM is how the peer refuses the push.
+        if stream.is_pending_open && !self.counts.peer().is_server() {
             proto_err!(conn: "recv_reset: received frame on idle stream {:?}", id);
             return Err(Error::library_go_away(Reason::PROTOCOL_ERROR));
         }
@@ -734,7 +737,8 @@ impl Inner {
             // The remote may send window updates for streams that the local now
             // considers closed. It's ok...
             if let Some(mut stream) = self.store.find_mut(&id) {
-                if stream.is_pending_open {
+                // (a server's pending-open stream is reserved, not idle: see recv_reset)
+                if stream.is_pending_open && !self.counts.peer().is_server() {
                     proto_err!(conn: "recv_window_update: received frame on idle stream {:?}", id);
                     return Err(Error::library_go_away(Reason::PROTOCOL_ERROR));
                 }
